@@ -187,6 +187,12 @@ func (ws *WALStorage) Append(entries []myraft.Entry) error {
 	if err != nil {
 		return err
 	}
+	// Raft acts on this state (sends messages) as soon as the call returns, and
+	// the manifest pointer written below refers to the record: it must have left
+	// the WAL's user-space buffer before either happens.
+	if err := ws.wal.Sync(); err != nil {
+		return err
+	}
 	if len(infos) != 1 {
 		return fmt.Errorf("raftstore: expected single entry record, got %d", len(infos))
 	}
@@ -222,6 +228,12 @@ func (ws *WALStorage) ApplySnapshot(snap myraft.Snapshot) error {
 		Payload: payload,
 	})
 	if err != nil {
+		return err
+	}
+	// Raft acts on this state (sends messages) as soon as the call returns, and
+	// the manifest pointer written below refers to the record: it must have left
+	// the WAL's user-space buffer before either happens.
+	if err := ws.wal.Sync(); err != nil {
 		return err
 	}
 	if len(infos) != 1 {
@@ -293,6 +305,12 @@ func (ws *WALStorage) SetHardState(st myraft.HardState) error {
 		Payload: payload,
 	})
 	if err != nil {
+		return err
+	}
+	// Raft acts on this state (sends messages) as soon as the call returns, and
+	// the manifest pointer written below refers to the record: it must have left
+	// the WAL's user-space buffer before either happens.
+	if err := ws.wal.Sync(); err != nil {
 		return err
 	}
 	if len(infos) != 1 {
